@@ -14,7 +14,334 @@ use lightning::ln::channelmanager::PaymentId;
 use lightning::ln::verif_hooks::outbound::Facade;
 use lightning::types::payment::{PaymentHash, PaymentPreimage};
 
-mod e2e { pub fn run(_a: &ldk_verif_harness::common::Args) { unimplemented!() } }
+
+/// c03e2e — real nodes. Node 0 is the sender; 1 and 2 are hops / recipients. Channels: c0, c1: 0-1; c2: 1-2;
+/// c3: 0-2. Every message is delivered individually in PRNG order. The ops fed to the model are derived from what
+/// is observable at the sender independently of its payment events: an `update_fulfill_htlc` delivered to it
+/// (claim), and an outbound HTLC leaving `ChannelDetails::pending_outbound_htlcs` (finalize if it had been
+/// fulfilled, fail otherwise). The sender's payment events and `list_recent_payments` are the compared outputs.
+mod e2e {
+	use std::collections::{BTreeMap, BTreeSet};
+	use ldk_verif_harness::common::*;
+	use ldk_verif_harness::sim::{self, Net, Wire};
+	use lightning::events::Event;
+	use lightning::ln::channelmanager::{PaymentId, RecentPaymentDetails};
+	use lightning::ln::functional_test_utils::get_payment_preimage_hash;
+	use lightning::ln::outbound_payment::{RecipientOnionFields, RetryableSendFailure};
+	use lightning::ln::verif_hooks as vh;
+	use lightning::routing::router::{Path, PaymentParameters, Route, RouteHop, RouteParameters};
+	use lightning::types::features::{ChannelFeatures, NodeFeatures};
+	use lightning::types::payment::{PaymentHash, PaymentPreimage, PaymentSecret};
+
+	struct Pay { mid: u64, id: PaymentId, hash: PaymentHash, preimage: PaymentPreimage, secret: PaymentSecret, to: usize, total: u64, fee: u64,
+		parts: Vec<(u64, usize)>, // (part number, first-hop channel index)
+		routes: Vec<(Vec<usize>, Vec<usize>, u64)>,
+		sent_ev: u32, failed_ev: u32, recipient_claimed: bool, recipient_action: u8, decided: bool }
+
+	struct Ctx<'a> { net: Net, rec: &'a mut Rec, rng: &'a mut Rng, buf: Vec<String>, htlcs: BTreeMap<(usize, u64), (usize, u64, bool)>,
+		live: BTreeSet<(usize, u64)>, ev_seen: Vec<usize>, pays: Vec<Pay>, next_part: u64, log: Vec<String>, sender_balance: u64 }
+
+	fn hops(net: &Net, nodes: &[usize], chans: &[usize], amt: u64) -> (Path, u64) {
+		let mut h = vec![]; let mut fee = 0;
+		for k in 1..nodes.len() {
+			let last = k == nodes.len() - 1;
+			let c = net.chans[chans[k - 1]];
+			if !last { fee += 1000; }
+			h.push(RouteHop { pubkey: net.ids[nodes[k]], node_features: NodeFeatures::empty(), short_channel_id: c.3, channel_features: ChannelFeatures::empty(),
+				fee_msat: if last { amt } else { 1000 }, cltv_expiry_delta: if last { 60 } else { 48 }, maybe_announced_channel: true });
+		}
+		(Path { hops: h, blinded_tail: None }, fee)
+	}
+
+	impl<'a> Ctx<'a> {
+		fn sender_htlcs(&self) -> BTreeMap<(usize, u64), PaymentHash> {
+			let mut m = BTreeMap::new();
+			for ch in self.net.nodes[0].node.list_channels() {
+				let c = self.net.chan_idx(&ch.channel_id);
+				for h in ch.pending_outbound_htlcs.iter() { if let Some(i) = h.htlc_id { m.insert((c, i), h.payment_hash); } }
+			}
+			m
+		}
+		fn balance(&self) -> u64 {
+			let n = self.net.nodes[0].node; let mut t = 0;
+			for ch in n.list_channels() { t += vh::channel_value_to_self_msat(n, &ch.counterparty.node_id, &ch.channel_id).unwrap_or(0); }
+			t
+		}
+		/// HTLCs that left the sender's channels since the last look
+		fn observe(&mut self) {
+			let cur = self.sender_htlcs();
+			let gone: Vec<(usize, u64)> = self.live.iter().filter(|k| !cur.contains_key(k)).cloned().collect();
+			for k in gone {
+				self.live.remove(&k);
+				if let Some((p, part, fulfilled)) = self.htlcs.get(&k).cloned() {
+					let mid = self.pays[p].mid;
+					if fulfilled { self.buf.push(format!("finalize {} {}", mid, part)); } else { self.buf.push(format!("fail {} {} 0 ?{}", mid, part, part)); }
+				}
+			}
+			for (k, hash) in cur.iter() {
+				if !self.live.contains(k) && !self.htlcs.contains_key(k) {
+					// a new HTLC: which payment / part?
+					if let Some(p) = self.pays.iter().position(|x| x.hash == *hash) {
+						let part = self.pays[p].parts.iter().find(|(pt, c)| *c == k.0 && !self.htlcs.values().any(|v| v.1 == *pt)).map(|x| x.0);
+						if let Some(part) = part { self.htlcs.insert(*k, (p, part, false)); self.live.insert(*k); }
+					}
+				}
+			}
+		}
+		fn part_of(&self, p: usize, scid: u64) -> u64 {
+			let c = self.net.chans.iter().position(|x| x.3 == scid).unwrap_or(usize::MAX);
+			self.pays[p].parts.iter().find(|(_, pc)| *pc == c).map(|x| x.0).unwrap_or(0)
+		}
+		/// drain the sender's events; emit one compared line for everything buffered
+		fn flush(&mut self, extra: Option<&str>) {
+			self.net.process_events(0);
+			self.observe();
+			let new: Vec<Event> = self.net.events[0][self.ev_seen[0]..].to_vec();
+			self.ev_seen[0] = self.net.events[0].len();
+			let mut texts: Vec<(u64, String)> = vec![];
+			let mut perm: BTreeMap<u64, bool> = BTreeMap::new();
+			for e in new.iter() {
+				match e {
+					Event::PaymentSent { payment_id, payment_preimage, payment_hash, fee_paid_msat, amount_msat, .. } => {
+						let p = self.pays.iter().position(|x| Some(x.id) == *payment_id);
+						if let Some(p) = p {
+							use bitcoin::hashes::{sha256, Hash};
+							let pay = &mut self.pays[p]; pay.sent_ev += 1;
+							let mid = pay.mid;
+							if sha256::Hash::hash(&payment_preimage.0).to_byte_array() != payment_hash.0 || *payment_hash != pay.hash { self.rec.oracle_fail(format!("PaymentSent preimage/hash mismatch pay={} :: {}", mid, self.log.join(" | "))); }
+							if *fee_paid_msat != Some(pay.fee) || *amount_msat != Some(pay.total) { self.rec.oracle_fail(format!("PaymentSent amount/fee {:?}/{:?} != sent {}/{} pay={} :: {}", amount_msat, fee_paid_msat, pay.total, pay.fee, mid, self.log.join(" | "))); }
+							texts.push((mid, format!("sent:{}", mid)));
+						} else { texts.push((0, "sent:unknown".into())); }
+					},
+					Event::PaymentFailed { payment_id, reason, .. } => {
+						if let Some(p) = self.pays.iter().position(|x| x.id == *payment_id) { self.pays[p].failed_ev += 1; let mid = self.pays[p].mid; texts.push((mid, format!("failed:{}:{}", mid, reason.map(|r| format!("{:?}", r)).unwrap_or("None".into())))); }
+					},
+					Event::PaymentPathSuccessful { payment_id, path, .. } => {
+						if let Some(p) = self.pays.iter().position(|x| x.id == *payment_id) { let mid = self.pays[p].mid; texts.push((mid, format!("pathok:{}:{}", mid, self.part_of(p, path.hops[0].short_channel_id)))); }
+					},
+					Event::PaymentPathFailed { payment_id, path, payment_failed_permanently, short_channel_id, .. } => {
+						if let Some(p) = self.pays.iter().position(|x| Some(x.id) == *payment_id) {
+							let mid = self.pays[p].mid; let part = self.part_of(p, path.hops[0].short_channel_id);
+							perm.insert(part, *payment_failed_permanently);
+							// failure attribution: a failure from the recipient names no channel; one from a hop names a channel of the path
+							if let Some(s) = short_channel_id { if !path.hops.iter().any(|h| h.short_channel_id == *s) { self.rec.oracle_fail(format!("PaymentPathFailed.short_channel_id {} is not on the failed path pay={} :: {}", s, mid, self.log.join(" | "))); } }
+							if *payment_failed_permanently && self.pays[p].recipient_action != 2 && self.pays[p].decided { self.rec.oracle_fail(format!("permanent failure reported although the recipient did not reject pay={} :: {}", mid, self.log.join(" | "))); }
+							texts.push((mid, format!("pathfail:{}:{}", mid, part)));
+						}
+					},
+					_ => {},
+				}
+			}
+			let mut ops: Vec<String> = self.buf.drain(..).collect();
+			for o in ops.iter_mut() { if let Some(i) = o.find('?') { let part: u64 = o[i + 1..].parse().unwrap(); let pm = perm.get(&part).cloned().unwrap_or(false); o.truncate(i); o.push_str(if pm { "1" } else { "0" }); } }
+			if let Some(x) = extra { ops.push(x.to_string()); }
+			ops.push("handle".to_string());
+			texts.sort_by_key(|t| t.0);
+			let mut ans = "ok".to_string(); for (_, t) in texts.iter() { ans.push(' '); ans.push_str(t); }
+			let line = format!("seq {}", ops.join(" ; "));
+			let class = if texts.is_empty() { "quiet" } else if texts.iter().any(|t| t.1.starts_with("sent")) { "sent" } else if texts.iter().any(|t| t.1.starts_with("failed")) { "failed" } else { "path-events" };
+			self.log.push(format!("{} => {}", line, ans));
+			if ops.len() > 1 || !texts.is_empty() { self.rec.case(&line, &ans, &format!("flush:{}", class), ops.len() > 1); }
+			self.oracle_counts();
+		}
+		fn oracle_counts(&mut self) {
+			for pay in self.pays.iter() {
+				if pay.sent_ev > 1 || pay.failed_ev > 1 || (pay.sent_ev > 0 && pay.failed_ev > 0) {
+					self.rec.oracle_fail(format!("payment {} got {} PaymentSent and {} PaymentFailed events (no restart) :: {}", pay.mid, pay.sent_ev, pay.failed_ev, self.log.join(" | ")));
+				}
+			}
+		}
+		fn recent(&mut self) {
+			let mut v: Vec<(u64, &'static str)> = vec![];
+			for r in self.net.nodes[0].node.list_recent_payments() {
+				let (id, n) = match r { RecentPaymentDetails::AwaitingInvoice { payment_id } => (payment_id, "AwaitingInvoice"), RecentPaymentDetails::Pending { payment_id, .. } => (payment_id, "Pending"),
+					RecentPaymentDetails::Fulfilled { payment_id, .. } => (payment_id, "Fulfilled"), RecentPaymentDetails::Abandoned { payment_id, .. } => (payment_id, "Abandoned") };
+				if let Some(p) = self.pays.iter().find(|x| x.id == id) { v.push((p.mid, n)); }
+			}
+			v.sort();
+			let mut s = "recent".to_string(); for (i, n) in v { s.push_str(&format!(" {}:{}", i, n)); }
+			self.log.push(s.clone());
+			self.rec.case("recent", &s, "recent", false);
+		}
+		fn send(&mut self, mid: u64, to: usize, routes: Vec<(Vec<usize>, Vec<usize>, u64)>) -> Option<usize> {
+			let total: u64 = routes.iter().map(|r| r.2).sum();
+			let (preimage, hash, secret) = get_payment_preimage_hash(&self.net.nodes[to], Some(total), None);
+			let mut paths = vec![]; let mut fee = 0; let mut parts = vec![];
+			for (nodes, chans, amt) in routes.iter() { let (p, f) = hops(&self.net, nodes, chans, *amt); paths.push(p); fee += f; parts.push((self.next_part, chans[0])); self.next_part += 1; }
+			let params = PaymentParameters::from_node_id(self.net.ids[to], 60);
+			let route = Route { paths, route_params: RouteParameters::from_payment_params_and_value(params, total) };
+			let id = PaymentId(hash.0);
+			let r = self.net.nodes[0].node.send_payment_with_route(route, hash, RecipientOnionFields::secret_only(secret, total), id);
+			self.net.pump(0);
+			match r {
+				Ok(()) => {
+					self.pays.push(Pay { mid, id, hash, preimage, secret, to, total, fee, parts: parts.clone(), routes, sent_ev: 0, failed_ev: 0, recipient_claimed: false, recipient_action: 0, decided: false });
+					self.observe();
+					let csv: Vec<String> = parts.iter().map(|p| p.0.to_string()).collect();
+					self.flush(Some(&format!("send {} {}", mid, csv.join(","))));
+					Some(self.pays.len() - 1)
+				},
+				Err(e) => { self.rec.discarded += 1; self.log.push(format!("send refused {:?}", e)); None },
+			}
+		}
+		fn dup_send(&mut self, p: usize) {
+			let listed = self.net.nodes[0].node.list_recent_payments().iter().any(|r| match r { RecentPaymentDetails::Pending { payment_id, .. } | RecentPaymentDetails::Fulfilled { payment_id, .. } | RecentPaymentDetails::Abandoned { payment_id, .. } | RecentPaymentDetails::AwaitingInvoice { payment_id } => *payment_id == self.pays[p].id });
+			if !listed { return; }
+			self.flush(None);
+			let pay = &self.pays[p];
+			let mut paths = vec![];
+			for (nodes, chans, amt) in pay.routes.iter() { paths.push(hops(&self.net, nodes, chans, *amt).0); }
+			let params = PaymentParameters::from_node_id(self.net.ids[pay.to], 60);
+			let route = Route { paths, route_params: RouteParameters::from_payment_params_and_value(params, pay.total) };
+			let r = self.net.nodes[0].node.send_payment_with_route(route, pay.hash, RecipientOnionFields::secret_only(pay.secret, pay.total), pay.id);
+			self.net.pump(0);
+			let mid = pay.mid;
+			let ans = match r { Err(RetryableSendFailure::DuplicatePayment) => "dup".to_string(), other => { self.rec.oracle_fail(format!("second send with a pending PaymentId returned {:?} pay={} :: {}", other, mid, self.log.join(" | "))); format!("other:{:?}", other) } };
+			self.log.push(format!("dupsend {} => {}", mid, ans));
+			self.rec.case(&format!("seq send {} 9999", mid), &ans, "dup-send", true);
+		}
+		/// recipients / hops: handle their events, decide claim or reject
+		fn others_events(&mut self, i: usize) {
+			self.net.process_events(i);
+			let new: Vec<Event> = self.net.events[i][self.ev_seen[i]..].to_vec();
+			self.ev_seen[i] = self.net.events[i].len();
+			for e in new {
+				match e {
+					Event::PaymentClaimable { payment_hash, .. } => {
+						if let Some(p) = self.pays.iter().position(|x| x.hash == payment_hash) {
+							if !self.pays[p].decided {
+								let a = if self.rng.chance(3, 5) { 1 } else { 2 };
+								self.pays[p].recipient_action = a; self.pays[p].decided = true;
+								if a == 1 { self.net.nodes[i].node.claim_funds(self.pays[p].preimage); } else { self.net.nodes[i].node.fail_htlc_backwards(&payment_hash); }
+								self.net.pump(i);
+								self.log.push(format!("recipient n{} {} pay={}", i, if a == 1 { "claims" } else { "rejects" }, self.pays[p].mid));
+							}
+						}
+					},
+					Event::PaymentClaimed { payment_hash, .. } => { if let Some(p) = self.pays.iter().position(|x| x.hash == payment_hash) { self.pays[p].recipient_claimed = true; } },
+					_ => {},
+				}
+			}
+		}
+		fn deliver(&mut self, i: usize, j: usize) {
+			if j == 0 {
+				if let Some(Wire::Fulfill(m)) = self.net.q.get(&(i, j)).and_then(|q| q.front()) {
+					let c = self.net.chan_idx(&m.channel_id);
+					if let Some(v) = self.htlcs.get_mut(&(c, m.htlc_id)) { v.2 = true; let (p, part, _) = *v; let mid = self.pays[p].mid; self.buf.push(format!("claim {} {} 0", mid, part)); }
+				}
+			}
+			let k = self.net.deliver(i, j);
+			if j == 0 || i == 0 { self.observe(); }
+			let _ = k;
+		}
+		fn quiescent(&self) -> bool {
+			self.net.any_queued().is_none() && (0..3).all(|i| !self.net.nodes[i].node.needs_pending_htlc_processing())
+		}
+		fn run_payment(&mut self, mid: u64, calm: bool) {
+			// route choice
+			let kind = self.rng.below(6);
+			let amt = 50_000 + self.rng.below(100) * 1000;
+			let routes: Vec<(Vec<usize>, Vec<usize>, u64)> = match kind {
+				0 => vec![(vec![0, 1], vec![0], amt)],
+				1 => vec![(vec![0, 1, 2], vec![0, 2], amt)],
+				2 => vec![(vec![0, 1], vec![0], amt), (vec![0, 1], vec![1], amt + 1000)],
+				3 => vec![(vec![0, 1, 2], vec![1, 2], amt), (vec![0, 2], vec![3], amt + 2000)],
+				4 => vec![(vec![0, 2], vec![3], amt)],
+				_ => vec![(vec![0, 1, 2], vec![0, 2], amt), (vec![0, 1, 2], vec![1, 2], amt), (vec![0, 2], vec![3], amt)],
+			};
+			let to = *routes[0].0.last().unwrap();
+			self.log.clear();
+			let bal0 = self.balance();
+			let p = match self.send(mid, to, routes) { Some(p) => p, None => return };
+			let mut disconnected: Option<(usize, usize)> = None;
+			let mut abandoned = false;
+			for _round in 0..600 {
+				if self.quiescent() && disconnected.is_none() { break; }
+				let r = self.rng.below(100);
+				if r < 62 {
+					let pairs: Vec<(usize, usize)> = self.net.q.iter().filter(|(_, q)| !q.is_empty()).map(|(k, _)| *k).collect();
+					if !pairs.is_empty() { let (i, j) = *self.rng.pick(&pairs); self.deliver(i, j); }
+				} else if r < 74 {
+					let i = 1 + self.rng.below(2) as usize; self.net.forward(i); self.others_events(i);
+				} else if r < 86 {
+					self.net.forward(0); self.observe(); self.flush(None);
+				} else if r < 89 && !calm {
+					self.net.nodes[0].node.timer_tick_occurred(); self.net.pump(0); self.observe(); self.buf.push("tick".into());
+				} else if r < 92 && !calm {
+					self.dup_send(p);
+				} else if r < 94 && !calm && !abandoned {
+					abandoned = true;
+					self.net.nodes[0].node.abandon_payment(self.pays[p].id); self.net.pump(0); self.observe();
+					self.buf.push(format!("abandon {} UserAbandoned", mid));
+				} else if r < 97 && !calm {
+					match disconnected {
+						None => { let pr = if self.rng.chance(1, 2) { (0, 1) } else if self.rng.chance(1, 2) { (1, 2) } else { (0, 2) }; self.net.disconnect(pr.0, pr.1); disconnected = Some(pr); self.observe(); self.log.push(format!("disconnect {:?}", pr)); },
+						Some(pr) => { self.net.reconnect(pr.0, pr.1); disconnected = None; self.observe(); self.log.push(format!("reconnect {:?}", pr)); },
+					}
+				} else if r < 99 { self.recent_checked(); }
+			}
+			// drain: reconnect, let MPP parts time out at the recipient, deliver everything
+			if let Some(pr) = disconnected { self.net.reconnect(pr.0, pr.1); self.observe(); }
+			for phase in 0..6 {
+				for _ in 0..400 {
+					if self.quiescent() { break; }
+					if let Some((i, j)) = self.net.any_queued() { self.deliver(i, j); }
+					for i in 1..3 { if self.net.nodes[i].node.needs_pending_htlc_processing() { self.net.forward(i); } self.others_events(i); }
+					if self.net.nodes[0].node.needs_pending_htlc_processing() { self.net.forward(0); self.observe(); }
+					self.flush(None);
+				}
+				self.flush(None);
+				if self.pays[p].sent_ev + self.pays[p].failed_ev > 0 && self.sender_htlcs().is_empty() { break; }
+				// undelivered / incomplete MPP: the recipient's timer fails the held parts back
+				if phase < 5 { for i in 1..3 { self.net.nodes[i].node.timer_tick_occurred(); self.net.pump(i); self.others_events(i); } }
+			}
+			self.recent_checked();
+			// implementation-side oracle, independent of the model
+			let pay = &self.pays[p];
+			let tr = self.log.join(" | ");
+			if pay.sent_ev + pay.failed_ev != 1 { self.rec.oracle_fail(format!("payment {} ended with {} PaymentSent + {} PaymentFailed events :: {}", pay.mid, pay.sent_ev, pay.failed_ev, tr)); }
+			if (pay.sent_ev == 1) != pay.recipient_claimed { self.rec.oracle_fail(format!("payment {}: PaymentSent={} but recipient PaymentClaimed={} :: {}", pay.mid, pay.sent_ev, pay.recipient_claimed, tr)); }
+			let bal1 = self.balance();
+			let expect = if pay.sent_ev == 1 { pay.total + pay.fee } else { 0 };
+			if self.sender_htlcs().is_empty() && bal0 as i128 - bal1 as i128 != expect as i128 { self.rec.oracle_fail(format!("payment {}: sender balance fell by {} msat, expected {} :: {}", pay.mid, bal0 as i128 - bal1 as i128, expect, tr)); }
+			self.sender_balance = bal1;
+			let class = format!("pay:{}parts:{}{}", self.pays[p].parts.len(), if self.pays[p].sent_ev == 1 { "sent" } else { "failed" }, if abandoned { ":abandoned" } else { "" });
+			*self.rec.classes.entry(class).or_insert(0) += 1;
+		}
+		fn recent_checked(&mut self) { self.flush(None); self.recent(); }
+		fn ticks(&mut self, n: usize) {
+			for _ in 0..n { self.net.nodes[0].node.timer_tick_occurred(); self.net.pump(0); self.observe(); self.flush(Some("tick")); }
+			self.recent();
+		}
+	}
+
+	pub fn run(args: &Args) {
+		sim::silence_stdout();
+		let mut rec = Rec::new(&args.out, "c03e2e");
+		let mut rng = Rng::new(args.seed ^ 0xe2e0_3);
+		let n_nets = if args.thorough { 40 } else { 3 } * args.scale;
+		let per_net = if args.thorough { 80 } else { 40 };
+		for _ in 0..n_nets {
+			rec.directive("reset");
+			let mut net = Net::new(3, vec![None, None, None]);
+			net.open(0, 1, 2_000_000, 500_000_000);
+			net.open(0, 1, 2_000_000, 500_000_000);
+			net.open(1, 2, 2_000_000, 500_000_000);
+			net.open(0, 2, 2_000_000, 500_000_000);
+			let mut ctx = Ctx { net, rec: &mut rec, rng: &mut rng, buf: vec![], htlcs: BTreeMap::new(), live: BTreeSet::new(), ev_seen: vec![0; 3], pays: vec![], next_part: 1, log: vec![], sender_balance: 0 };
+			for k in 0..per_net {
+				let calm = ctx.rng.chance(1, 4);
+				ctx.run_payment(k as u64 + 1, calm);
+				if ctx.net.nodes[0].node.list_channels().len() < 4 { break; } // a channel closed: start over with a fresh network
+				if ctx.rng.chance(1, 3) { let n = ctx.rng.range(1, 9) as usize; ctx.ticks(n); }
+			}
+			ctx.ticks(10);
+			std::mem::forget(ctx.net);
+		}
+		rec.notes.insert("rule".into(), "3 real nodes, 4 channels, sequential payments (1-hop, 2-hop, 2- and 3-part MPP over distinct first-hop channels), every peer message delivered singly in PRNG order with recipient claim/reject, sender ticks, abandon, duplicate sends and disconnect/reconnect interleaved; one case per sender event drain (the ops observed since the last drain) and per list_recent_payments dump; distinct = distinct op text with at least one observed op".into());
+		rec.finish();
+	}
+}
 
 fn pid(n: u64) -> PaymentId { let mut b = [0u8; 32]; b[24..].copy_from_slice(&n.to_be_bytes()); PaymentId(b) }
 fn pid_num(hex32: &str) -> u64 { u64::from_str_radix(&hex32[48..], 16).unwrap_or(u64::MAX) }
